@@ -49,20 +49,25 @@ LenSeqs(t) ==
 
 OddBox == << 5, 6, -5, -6, 7, -7, 8, -8 >>
 
-MkShape(t, parts, kseed, oddBox) ==
+\* box mode: 0 the exact box, 1 a box unrelated to the data, 2 the all-zero box (producers that never fill it in),
+\* 3 three zeros and one non-zero
+MkShapeB(t, parts, kseed, mode) ==
     LET all == Concat(parts)
+        odd == << OddBox[1], OddBox[2], OddBox[3], OddBox[4],
+                  IF StoresZ(t) THEN OddBox[5] ELSE 0, IF StoresZ(t) THEN OddBox[6] ELSE 0,
+                  IF StoresM(t) THEN OddBox[7] ELSE 0, IF StoresM(t) THEN OddBox[8] ELSE 0 >>
     IN  [t |-> t, parts |-> parts,
          kinds |-> IF t = 31 THEN ToSeq([i \in 1..Len(parts) |-> (i + kseed) % 6], 1) ELSE << >>,
          box |-> IF IsPointType(t) THEN ZeroBox
-                 ELSE IF oddBox \/ all = << >> \/ HasNaN(all) THEN
-                      << OddBox[1], OddBox[2], OddBox[3], OddBox[4],
-                         IF StoresZ(t) THEN OddBox[5] ELSE 0, IF StoresZ(t) THEN OddBox[6] ELSE 0,
-                         IF StoresM(t) THEN OddBox[7] ELSE 0, IF StoresM(t) THEN OddBox[8] ELSE 0 >>
+                 ELSE IF mode = 2 THEN ZeroBox
+                 ELSE IF mode = 3 THEN << 0, 0, 0, 5, 0, 0, 0, 0 >>
+                 ELSE IF mode = 1 \/ all = << >> \/ HasNaN(all) THEN odd
                  ELSE BoxOfPoints(t, all)]
+MkShape(t, parts, kseed, oddBox) == MkShapeB(t, parts, kseed, IF oddBox THEN 1 ELSE 0)
 
 ShapesOf(t) ==
-    { MkShape(t, Parts(t, lens, 1, sp), 0, ob) :
-        lens \in LenSeqs(t), sp \in (IF Thorough THEN {0, 1, 2} ELSE {0, 1}), ob \in BOOLEAN }
+    { MkShapeB(t, Parts(t, lens, 1, sp), 0, mode) :
+        lens \in LenSeqs(t), sp \in (IF Thorough THEN {0, 1, 2} ELSE {0, 1}), mode \in (IF Thorough THEN 0..3 ELSE 0..2) }
     \cup (IF Family(t) = "polygon"
           THEN { MkShape(t, << RingCCW(t, 2) >>, 0, FALSE),                      \* counter-clockwise first ring
                  MkShape(t, << RingCW(t, 3), RingCCW(t, 1) >>, 0, FALSE),
